@@ -148,6 +148,8 @@ def nested(rng, depth):
 
 # inputs on which a parse action is known to raise something that is not a ParseException (always run, so
 # that each known class is observed — or seen to be repaired — on every run)
+DEGENERATE_LEXEMES = ['""', '``', '[]', "''", '" "', '` `', '[ ]', '"', '`', '[', "'", "''''", '""""']
+
 CRASH_PROBES = [
     ("common", "select 'a\\'"), ("common", "select 'a\x00b'"), ("mysql", 'select "a\\"'), ("common", 'select "a\\" from t'),
     ("common", "select `a\\` from t"), ("sqlserver", "select [a\\] from t"), ("common", "select 'a' 'b\\'"),
@@ -198,6 +200,22 @@ def run(ctx, scale=1):
                 bad = classify(o, len(sql))
                 if bad:
                     rep.finding(bad, "%r -> %s" % (sql, o[1]), {"kind": "arbitrary", "sql": sql, "dialect": "common"})
+    # degenerate lexemes (empty quoted names / strings, lone quotes and brackets) in every position a name can take,
+    # well-formed and cut off: a tree or a ParseException, nothing else
+    degenerate = []
+    for q in DEGENERATE_LEXEMES:
+        for tpl in ("select {q} from t", "select {q}", "select a.{q} from t", "select {q}.a from t", "select a as {q} from t", "select a from {q}",
+                    "select a from t where {q} = 1", "select f({q}) from t", "select {q} from t where", "select {q}, (a from t", "insert into {q} values (1)",
+                    "create table {q} (a int)", "create table t ({q} int)", "select a from t order by {q}", "select {q} {q} from {q}"):
+            degenerate.append(tpl.format(q=q))
+    for sql in degenerate:
+        for d in DIALECTS:
+            o = _pw((sql, d))
+            rep.count("degenerate_lexeme", "tree" if o[0] == "ok" else o[1])
+            rep.case("degenerate:%s|%s" % (d, sql))
+            bad = classify(o, len(sql))
+            if bad:
+                rep.finding(bad, "%s: %r -> %s %s" % (d, sql, o[1], (o[3] or "")[:100].replace("\n", " ")), {"kind": "arbitrary", "sql": sql, "dialect": d})
     for d, sql in CRASH_PROBES:
         o = _pw((sql, d))
         rep.count("crash_probe", "tree" if o[0] == "ok" else o[1])
